@@ -96,12 +96,36 @@ class NumEval:
         return (B(r[0]), B(r[1]))
 
     def interval(self, t):
+        busy = self.__dict__.setdefault("_busy", set())
+        if t in busy or len(busy) > 60:
+            # a fact relates t to a term that contains t: no refinement on the inner occurrence
+            ty = self.I.tys.get(t)
+            tr = self._type_range(ty) if ty else None
+            return self.base.get(t) or tr or (None, None)
+        busy.add(t)
+        try:
+            return self._interval_refined(t)
+        finally:
+            busy.discard(t)
+
+    def _interval_refined(self, t):
         lo, hi = self._interval(t)
         # refine by facts that compare exactly this term with a bound we can evaluate
         for f in self.facts:
             if f[0] not in ("eq", "ne"):
                 continue
             c = f[1]
+            if c == t and isinstance(f[2], int) and not isinstance(f[2], bool) and not (isinstance(t, tuple) and t and t[0] in ("bin", "fcmp") and t[1] in ("Eq", "Ne", "Lt", "Le", "Gt", "Ge")):
+                # a `match` on the value itself: t == k / t != k
+                k = B(f[2])
+                if f[0] == "eq":
+                    lo, hi = k, k
+                else:
+                    if lo is not None and self.dom.le(k, lo) and self.dom.le(lo, k):
+                        lo = lo + B(1)
+                    if hi is not None and self.dom.le(k, hi) and self.dom.le(hi, k):
+                        hi = hi - B(1)
+                continue
             if isinstance(c, tuple) and c and c[0] == "bin" and c[1] in ("Eq", "Ne"):
                 # disequality at an end point of the interval tightens it
                 truth = (f[0] == "eq") == bool(f[2])
@@ -208,6 +232,13 @@ class NumEval:
                     r = fn(self, t)
                     if r is not None:
                         return r[0]
+            nm = str(t[1])
+            if nm.endswith("::rem_euclid") and len(t[2]) >= 2:
+                blo, bhi = self.interval(t[2][1])
+                if blo is not None and self.dom.le(B(1), blo):
+                    return (B(0), bhi - B(1))
+            if (nm.endswith("From<u32>>::from") or nm.endswith("convert::From::from") or nm.endswith("::from")) and len(t[2]) >= 1 and self._is_int_conv(t):
+                return self.interval(t[2][0])
         ty = self.I.tys.get(t)
         tr = self._type_range(ty) if ty else None
         if tr:
@@ -236,9 +267,7 @@ class NumEval:
                 return a + b if op == "Add" else a - b if op == "Sub" else a * b
             if op == "Rem":
                 # x % S' where S' is (a value-preserving cast of) the symbol
-                d = t[3]
-                while d[0] == "cast":
-                    d = d[3]
+                d = self._strip_conv(t[3])
                 if d == self.sym:
                     return self.cong(t[2])
         if h == "call":
@@ -247,4 +276,23 @@ class NumEval:
                     r = fn(self, t)
                     if r is not None:
                         return r[1]
+            nm = str(t[1])
+            if nm.endswith("::rem_euclid") and len(t[2]) >= 2 and self._strip_conv(t[2][1]) == self.sym:
+                return self.cong(t[2][0])
+            if nm.endswith("::from") and len(t[2]) >= 1 and self._is_int_conv(t):
+                return self.cong(t[2][0])
         return None
+
+    def _strip_conv(self, d):
+        while isinstance(d, tuple) and d and (d[0] == "cast" or (d[0] == "call" and str(d[1]).endswith("::from") and self._is_int_conv(d))):
+            d = d[3] if d[0] == "cast" else d[2][0]
+        return d
+
+    def _is_int_conv(self, t):
+        """a lossless integer widening <T as From<U>>::from: the result type is an integer type and so is the argument"""
+        ty = self.I.tys.get(t)
+        a = t[2][0] if t[2] else None
+        aty = self.I.tys.get(a) if a is not None else None
+        if a == self.sym:
+            aty = aty or "u32"
+        return ty in INT_RANGE and (aty in INT_RANGE or a == self.sym or (isinstance(a, tuple) and a and a[0] in ("proj", "load", "param", "cast", "bin")))
